@@ -126,11 +126,11 @@ func (k *schedSink) Write(p []byte) (int, error) {
 // c12Build replays the preparation history and the first nw writer operations sequentially on a
 // fresh instance (no scheduler attached) and returns it with the model.
 type c12Inst struct {
-	m   *u.MapPollard
-	h   *c12Harness
-	md  *histModel
-	in  *inst
-	fam *HistFamily
+	m    *u.MapPollard
+	h    *c12Harness
+	md   *histModel
+	in   *inst
+	fam  *HistFamily
 	prep []Op
 }
 
@@ -384,7 +384,7 @@ func c12Expected(sc c12Scenario) (*c12Expect, error) {
 		if err != nil {
 			return nil, err
 		}
-			pre := ci.md.s.Clone()
+		pre := ci.md.s.Clone()
 		wcalls, err := ci.prepareWriter(sc.Writer)
 		if err != nil {
 			return nil, err
@@ -840,10 +840,10 @@ func c12Race(args []string) int {
 			// raw maps: let the detector see the accesses without harness code in between
 			ci.m.Nodes = ci.m.Nodes.(*schedNodes).in
 			ci.m.CachedLeaves = ci.m.CachedLeaves.(*schedCached).in
-					pre := ci.md.s.Clone()
+			pre := ci.md.s.Clone()
 			wcalls, err := ci.prepareWriter(sc.Writer)
 			if err != nil {
-					continue
+				continue
 			}
 			var wg sync.WaitGroup
 			start := make(chan struct{})
